@@ -1,5 +1,7 @@
 import PromModel.Tsdb.Intervals
 import PromProofs.IntervalsAdd
+import PromProofs.IntervalsIter
+import PromProofs.IntervalsJudge
 /-
   C20 — Deletion removes exactly the requested data (mechanism level).
   Property theorems only; helper lemmas live in PromProofs.
@@ -55,5 +57,64 @@ theorem add_in_range (xs ys : Intervals) (n : Interval)
     (hxs : ∀ x ∈ xs, I64 x.mint ∧ I64 x.maxt) (hn : I64 n.mint ∧ I64 n.maxt)
     (h : add xs n = .ok ys) : ∀ y ∈ ys, I64 y.mint ∧ I64 y.maxt :=
   add_range xs ys n hxs hn h
+
+/-! ### InBounds / IsSubrange / iterator filtering -/
+
+theorem inBounds_iff (tr : Interval) (t : Int) : tr.inBounds t = true ↔ tr.mint ≤ t ∧ t ≤ tr.maxt :=
+  Prom.Intervals.inBounds_iff tr t
+
+/-- On a canonical deletion set, `IsSubrange` says exactly "every timestamp of the range is deleted". -/
+theorem isSubrange_iff_all_covered (tr : Interval) (dr : Intervals) (hc : Canon dr) (hv : tr.mint ≤ tr.maxt) :
+    tr.isSubrange dr = true ↔ ∀ t, tr.mint ≤ t → t ≤ tr.maxt → covers dr t :=
+  Prom.Intervals.isSubrange_iff tr dr hc hv
+
+/-- Without canonicity the equivalence fails (two adjacent intervals cover [1,4], no single one does):
+    this is why `Add` must merge adjacent intervals. -/
+theorem isSubrange_needs_canonical_witness :
+    (⟨1, 4⟩ : Interval).isSubrange [⟨1, 2⟩, ⟨3, 4⟩] = false ∧
+    rangeCoveredB [⟨1, 2⟩, ⟨3, 4⟩] 1 4 = true := by decide
+
+/-- `DeletedIterator`: for increasing sample timestamps and a canonical deletion set, `Next()` until
+    exhaustion returns a sample iff it is not covered — all samples, any number of intervals. -/
+theorem deleted_iterator_next (ts : List Int) (ivs : Intervals)
+    (hs : ts.Pairwise (· < ·)) (hc : Canon ivs) :
+    drain ts ivs = ts.filter (fun t => !coversB ivs t) :=
+  drain_eq_filter ts ivs hs hc
+
+/-- Same after an initial `Seek(s)`: exactly the uncovered samples at or after `s`. -/
+theorem deleted_iterator_seek (s : Int) (ts : List Int) (ivs : Intervals)
+    (hs : ts.Pairwise (· < ·)) (hc : Canon ivs) :
+    seekDrain s ts ivs = ts.filter (fun t => decide (s ≤ t) && !coversB ivs t) :=
+  seekDrain_eq_filter s ts ivs hs hc
+
+example : ([1, 2, 3, 5, 8, 9] : List Int).Pairwise (· < ·) ∧ Canon [⟨2, 3⟩, ⟨8, 8⟩] ∧
+    drain [1, 2, 3, 5, 8, 9] [⟨2, 3⟩, ⟨8, 8⟩] = [1, 5, 9] ∧
+    seekDrain 3 [1, 2, 3, 5, 8, 9] [⟨2, 3⟩, ⟨8, 8⟩] = [5, 9] := by decide
+
+/-! ### the judge accepts the model (statement-as-oracle, suite `intervals`) -/
+
+/--
+  For EVERY sequence of operations whose `add` arguments are int64 values (valid or not, any length,
+  interleaved with resets, IsSubrange/InBounds queries and iterator runs), the property predicate
+  `verdict` evaluated on the model's own outputs reports no violation: after each valid add the set is
+  canonical, covers exactly the union of the requested ranges, never panics; IsSubrange and the
+  iterator agree with that union.
+-/
+theorem model_holds (ops : List Op) (hr : ∀ op ∈ ops, OpInRange op) :
+    verdict [] 0 ops (runOps [] ops) = none :=
+  verdict_runOps ops [] [] 0 inv_nil hr
+
+/-- Non-vacuity: a concrete history hitting merge at both extremes, and the judge really rejects a
+    wrong answer for it (a non-merged adjacent pair, and a lost range). -/
+example :
+    let ops : List Op := [.add 1 2, .add MinI64 0, .add 5 MaxI64, .sub 1 2, .iter (some 0) [-1, 0, 3, 4, 5]]
+    (∀ op ∈ ops, OpInRange op) ∧
+    runOps [] ops = [.set [⟨1, 2⟩], .set [⟨MinI64, 2⟩], .set [⟨MinI64, 2⟩, ⟨5, MaxI64⟩], .bool true, .ts [3, 4]] ∧
+    (verdict [] 0 ops [.set [⟨1, 2⟩], .set [⟨MinI64, 0⟩, ⟨1, 2⟩]]).isSome ∧
+    (verdict [] 0 ops [.set [⟨1, 2⟩], .set [⟨MinI64, 0⟩]]).isSome := by
+  refine ⟨?_, by decide, by decide, by decide⟩
+  intro op hop
+  simp only [List.mem_cons, List.mem_nil_iff, or_false] at hop
+  rcases hop with rfl | rfl | rfl | rfl | rfl <;> simp [OpInRange, I64, MinI64, MaxI64]
 
 end Prom.C20
